@@ -6,8 +6,12 @@ From Sq Require Import Base.Corr Lsp.Model.
 Definition rviol := (N * N * option str * str)%type.          (* line, pos, code, description *)
 Definition rdiag := (N * N * option str * str)%type.          (* line, character, code, message *)
 Definition redit := (N * N * N * N * text)%type.              (* start line/char, end line/char, new text *)
-Definition rop := (N * N * N)%type.                           (* tag, a, b *)
-Definition rout := (N * N * N)%type.
+(** operations and events are single numbers (keeps the generated files small):
+    op    = tag + 8 * (a + 32 * b)      tag 0 Open a=doc b=text | 1 Change | 2 Close a | 3 WriteDisk a=config
+                                        | 4 Save a=name | 5 Format a=doc | 6 Other
+    event = tag + 4 * (a + 8 * b)       tag 0 Publish a=doc b=diagnostics id | 1 Edits (a + 8 * b)=edits id | 2 Crash *)
+Definition rop := N.
+Definition rout := N.
 
 (** texts by id; save-uri names by id; lint results (config id, text id); fix results; the distinct
     published diagnostic lists and edit lists of the real server, by id. *)
@@ -60,7 +64,7 @@ Definition tab_fix (T : tables) (c : N) (t : text) : text :=
   end.
 
 Definition to_op (T : tables) (x : rop) : op N :=
-  let '(tag, a, b) := x in
+  let tag := x mod 8 in let a := (x / 8) mod 32 in let b := x / 256 in
   if tag =? 0 then Open a (nth (N.to_nat b) (t_texts T) [63])
   else if tag =? 1 then Change a (nth (N.to_nat b) (t_texts T) [63])
   else if tag =? 2 then Close a
@@ -70,9 +74,9 @@ Definition to_op (T : tables) (x : rop) : op N :=
   else Other.
 
 Definition to_out (T : tables) (x : rout) : out :=
-  let '(tag, a, b) := x in
+  let tag := x mod 4 in let a := (x / 4) mod 8 in let b := x / 32 in
   if tag =? 0 then Publish a (match find1 (t_dvals T) b with Some ds => map of_rdiag ds | None => [mkdiag 0 0 None [63]] end)
-  else if tag =? 1 then Edits (match find1 (t_evals T) a with Some es => map to_edit es | None => [] end)
+  else if tag =? 1 then Edits (match find1 (t_evals T) (x / 4) with Some es => map to_edit es | None => [] end)
   else Crash.
 
 Definition rdiag_eqb (a b : rdiag) : bool :=
